@@ -92,9 +92,17 @@ JIdleEffect(e) ==
 JMigration(e) == e.alive_after_rebind = e.allow
 JReload(e) == e.first_sees_a /\ e.reload_ok /\ e.second_connected /\ e.second_sees_b /\ e.first_still_a /\ e.old_alive
 
+\* PinRule is a function of (certificate, hash set, now): the same endpoint asking again later gets
+\* the answer for the later "now" - whatever was accepted, cached or resumed before
+JPinReconnect(e) ==
+  /\ e.first_while_valid = "ok" /\ e.second_while_valid = "ok"
+  /\ e.same_endpoint_after_expiry = "err"
+  /\ e.fresh_endpoint_after_expiry = "err"
+
 Judge(e) ==
   CASE e.ev = "pin" -> JPin(e)
     [] e.ev = "pin_flip" -> ~e.panic /\ e.res = "err"
+    [] e.ev = "pin_reconnect" -> JPinReconnect(e)
     [] e.ev = "selfsigned" -> JSelfSigned(e)
     [] e.ev = "pem_rt" -> JPemRt(e)
     [] e.ev = "pem_bad" -> JPemBad(e)
